@@ -3,7 +3,7 @@
    pixels in both arithmetic modes, and never panics on any well-formed TPL texture. *)
 From Coq Require Import List NArith ZArith Arith Lia Bool ZifyBool ZifyNat ZifyN.
 From Mila Require Import Lib.Bytes Lib.BytesExtra Lib.Machine Model.Pixel Model.PixelSpec Model.Etc1 Model.TexCommon Model.TexFormat
-  Proofs.Scatter Proofs.TileProofs Proofs.EtcImageProofs Proofs.TexBase.
+  Proofs.Scatter Proofs.TileProofs Proofs.EtcImageProofs Proofs.PaletteProofs Proofs.TexBase.
 Import ListNotations.
 Local Open Scope N_scope.
 Ltac Zify.zify_post_hook ::= Z.div_mod_to_equations.
@@ -93,6 +93,76 @@ Proof.
   intros H. eapply Forall_impl; [|exact H]. intros t Ht. rewrite (decode_tex_supported m t Ht). exact I.
 Qed.
 
+(* composition with C19_pixel_source: pixel (X, Y) of a supported colour texture is decode_color of the payload element
+   at the tiled (Morton) index *)
+Lemma decoded_pixels t : supported3ds t -> listed_color_format (t_fmt t) = true ->
+  exists px, decoded t = mkTexture (t_name t) (t_w t) (t_h t) (flatten px) /\ length px = N.to_nat (t_w t * t_h t) /\
+    forall X Y, X < t_w t -> Y < t_h t ->
+      nth_error px (N.to_nat (Y * t_w t + X)) =
+        Some (decode_color (element (bytes_per_element (t_fmt t)) (t_data t) (tiled_index (t_w t) X Y)) (t_fmt t)).
+Proof.
+  intros (Hfmt & Hsz & Hlen) Hl.
+  destruct Hfmt as [(_ & W8 & H8) | ([E|E] & _)]; try (rewrite E in Hl; discriminate Hl).
+  assert (Hlen' : lenN (t_data t) = bytes_per_element (t_fmt t) * (t_w t * t_h t)).
+  { rewrite Hlen. unfold payload_size.
+    destruct (listed_cases _ Hl) as [E|[E|[E|[E|[E|[E|E]]]]]]; rewrite E; cbv [bpp2 bytes_per_element];
+      rewrite <- ?N.mul_assoc; generalize (t_w t * t_h t); intros q; lia. }
+  pose proof (decode_rgba_as_scatter Wrapping _ _ _ _ Hl W8 H8 Hsz Hlen') as Es. cbv zeta in Es.
+  assert (L11 : t_fmt t <=? 11 = true) by (destruct (listed_cases _ Hl) as [->|[->|[->|[->|[->|[->| ->]]]]]]; reflexivity).
+  eexists. split; [|split].
+  - unfold decoded, pixels_of, decode_pixel_data, decode_pixels. rewrite L11, Es. cbn [bind]. reflexivity.
+  - rewrite scatter_length, repeat_length. reflexivity.
+  - intros X Y HX HY.
+    destruct (rgba_pixel_source Wrapping _ _ _ _ X Y Hl W8 H8 Hsz Hlen' HX HY) as (px' & Epx & _ & Hp).
+    rewrite Es in Epx. inversion Epx; subst. exact Hp.
+Qed.
+
+(* ---------------------------------------------------------------- the f32 payload size (CTPK, BCH) *)
+Lemma rne24_small q : q < 2 ^ 24 -> rne24 q = q.
+Proof.
+  intros H. unfold rne24. destruct (N.eq_dec q 0) as [->|NZ]; [reflexivity|].
+  assert (L : N.log2 q < 24) by (apply N.log2_lt_pow2; lia).
+  replace (N.log2 q - 23) with 0 by lia. reflexivity.
+Qed.
+Lemma rne24_shift c k : c < 2 ^ 24 -> rne24 (c * 2 ^ k) = c * 2 ^ k.
+Proof.
+  intros H. destruct (N.eq_dec c 0) as [->|NZ]; [reflexivity|].
+  unfold rne24. rewrite N.log2_mul_pow2 by lia.
+  assert (L : N.log2 c < 24) by (apply N.log2_lt_pow2; lia).
+  set (s := k + N.log2 c - 23). destruct (N.eqb_spec s 0) as [_|Hs]; [reflexivity|].
+  assert (Hsk : s <= k) by (unfold s; lia).
+  assert (E : c * 2 ^ k = (c * 2 ^ (k - s)) * 2 ^ s).
+  { rewrite <- N.mul_assoc, <- N.pow_add_r. f_equal. f_equal. lia. }
+  assert (P : 2 ^ s <> 0) by (apply N.pow_nonzero; lia).
+  assert (R : (c * 2 ^ k) mod 2 ^ s = 0) by (rewrite E; apply N.mod_mul, P).
+  assert (D : (c * 2 ^ k) / 2 ^ s = c * 2 ^ (k - s)) by (rewrite E; apply N.div_mul, P).
+  rewrite R, D.
+  assert (Hh : 0 < 2 ^ (s - 1)) by (pose proof (N.pow_nonzero 2 (s - 1)); lia).
+  destruct (N.ltb_spec (2 ^ (s - 1)) 0) as [?|_]; [lia|].
+  destruct (N.eqb_spec 0 (2 ^ (s - 1))) as [?|_]; [lia|]. cbn [orb andb]. symmetry. exact E.
+Qed.
+
+(* the request is exact for every payload below 8 MiB ... *)
+Lemma f32_exact_small t : bpp2 (t_fmt t) * t_w t * t_h t < 2 ^ 24 -> f32_exact t.
+Proof. intros H. unfold f32_exact, payload_size32, payload_size. rewrite rne24_small by exact H. reflexivity. Qed.
+(* ... and for power-of-two sides of any size *)
+Lemma f32_exact_pow2 t a b : t_w t = 8 * 2 ^ a -> t_h t = 8 * 2 ^ b -> f32_exact t.
+Proof.
+  intros Hw Hh. unfold f32_exact, payload_size32, payload_size. rewrite Hw, Hh.
+  replace (bpp2 (t_fmt t) * (8 * 2 ^ a) * (8 * 2 ^ b)) with (bpp2 (t_fmt t) * 2 ^ (6 + a + b)).
+  2:{ rewrite !N.pow_add_r. change (2 ^ 6) with 64. lia. }
+  rewrite rne24_shift; [reflexivity|].
+  unfold bpp2. destruct (t_fmt t) as [|p]; [reflexivity|]. do 4 (destruct p as [p|p|]; try reflexivity).
+Qed.
+(* it is NOT exact in general: a 4097 x 4099 L4 texture has 8396801 bytes (and a nibble), the reader asks for 8396802 *)
+Lemma f32_inexact_witness : payload_size 10 4097 4099 = 8396801 /\ payload_size32 10 4097 4099 = 8396802.
+Proof. split; vm_compute; reflexivity. Qed.
+
+(* supported textures of the containers that compute the payload size in f32 (CTPK, BCH) *)
+Definition supported3ds_f32 (t : tex) : Prop := supported3ds t /\ f32_exact t.
+Lemma supported_f32_split ts : Forall supported3ds_f32 ts -> Forall supported3ds ts /\ Forall f32_exact ts.
+Proof. intros H. split; (eapply Forall_impl; [|exact H]); intros t Ht; apply Ht. Qed.
+
 (* ---------------------------------------------------------------- TPL *)
 Lemma b2s_loop_length data olen : forall pairs out, length (b2s_loop data olen pairs out) = length out.
 Proof.
@@ -180,26 +250,29 @@ Qed.
 Lemma tpl_all_no_panic ts : Forall (fun t => no_panic (decode_tpl_tex t)) ts.
 Proof. apply Forall_forall. intros t _. apply tpl_tex_no_panic. Qed.
 
-(* a TPL texture whose indices all lie in its (non-empty, even-sized) palette *)
+(* a TPL texture whose VISIBLE pixels index into its even-sized palette (the bytes that pad the 8x4 blocks are free:
+   the same condition as C19_palette) *)
 Definition supportedtpl (t : tex) : Prop :=
-  lenN (t_pal t) mod 2 = 0 /\ 0 < lenN (t_pal t) /\ Forall (fun b => b < lenN (t_pal t) / 2) (t_data t).
+  1 <= t_w t /\ 1 <= t_h t /\ lenN (t_data t) = align8 (t_w t) * align4 (t_h t) /\ lenN (t_pal t) mod 2 = 0 /\
+  forall x y, x < t_w t -> y < t_h t -> nth (N.to_nat (ci8_index (t_w t) x y)) (t_data t) 0 < lenN (t_pal t) / 2.
 Definition tpl_pixels_of (t : tex) : bytes :=
   match tpl_ci8_image (t_pal t) (t_data t) (t_w t) (t_h t) with Ok px => px | _ => [] end.
 Definition tpl_decoded (t : tex) : texture := mkTexture [] (t_w t) (t_h t) (tpl_pixels_of t).
 
-Lemma decode_tpl_supported t : supportedtpl t -> decode_tpl_tex t = Ok (tpl_decoded t).
+(* ... and its pixels are the decoded palette entries C19 names (composition with C19_palette) *)
+Lemma tpl_decoded_pixels t : supportedtpl t ->
+  exists px, decode_tpl_tex t = Ok (tpl_decoded t) /\ tpl_decoded t = mkTexture [] (t_w t) (t_h t) (flatten px) /\
+    length px = N.to_nat (t_w t * t_h t) /\
+    forall x y, x < t_w t -> y < t_h t ->
+      nth_error px (N.to_nat (y * t_w t + x)) =
+        Some (decode_rgb5a3_pixel (be16_at (t_pal t) (nth (N.to_nat (ci8_index (t_w t) x y)) (t_data t) 0))).
 Proof.
-  intros (Hm & Hpos & Hidx). unfold decode_tpl_tex, tpl_decoded, tpl_pixels_of.
-  assert (E : exists px, tpl_ci8_image (t_pal t) (t_data t) (t_w t) (t_h t) = Ok px).
-  { unfold tpl_ci8_image, rgb5a3_decode. rewrite Hm. cbn [N.eqb bind].
-    destruct (tpl_crop_ok (t_data t) (t_w t) (t_h t)) as (out & -> & HP). cbn [bind].
-    assert (Hl : length (rgb5a3_pixels (t_pal t)) = N.to_nat (lenN (t_pal t) / 2)).
-    { apply rgb5a3_pixels_length. unfold lenN in *. lia. }
-    destruct (ci8_lookup_ok (rgb5a3_pixels (t_pal t)) out) as (px & ->).
-    - rewrite Hl, N2Nat.id. apply HP; [lia | exact Hidx].
-    - cbn [bind]. eauto. }
-  destruct E as (px & ->). reflexivity.
+  intros (Hw & Hh & Hlen & Hm & Hidx).
+  destruct (palette_image_source (t_pal t) (t_data t) (t_w t) (t_h t) Hw Hh Hlen Hm Hidx) as (px & E & L & P).
+  exists px. unfold decode_tpl_tex, tpl_decoded, tpl_pixels_of. rewrite E. cbn [bind]. auto.
 Qed.
+Lemma decode_tpl_supported t : supportedtpl t -> decode_tpl_tex t = Ok (tpl_decoded t).
+Proof. intros H. destruct (tpl_decoded_pixels t H) as (px & E & _). exact E. Qed.
 Lemma decode_all_tpl_supported ts : Forall supportedtpl ts -> decode_all decode_tpl_tex ts = Ok (map tpl_decoded ts).
 Proof.
   intros H. apply decode_all_map. eapply Forall_impl; [|exact H]. intros t Ht. apply decode_tpl_supported, Ht.
